@@ -94,6 +94,11 @@ class ConcE:
     def pad(self, n):
         self._emit(b"\x00" * n, dc=True)
 
+    def zeros(self, n):
+        if n < 0:
+            raise EncodeError("more items than the record has slots")
+        self._emit(b"\x00" * n)
+
     def fold(self, seq, fn):
         for x in seq:
             fn(x, self)
@@ -240,15 +245,21 @@ def _v_seelab(o):
               thin_prism=o.thin_prism, view_port=o.view_port)
 
 
-def _pad70(a):
+def _trim0(a):
+    """coefficients without trailing +0.0 slots (a record stores 70 slots, unused ones are zero bytes)"""
     a = _flat(a).astype("<f8")
-    return np.concatenate([a, np.zeros(70 - len(a), "<f8")])
+    raw = a.view("<u8")
+    n = len(a)
+    while n > 0 and raw[n - 1] == 0:
+        n -= 1
+    return a[:n]
 
 
 def _v_btscam(o):
     return NS(rotation_matrix=o.rotation_matrix, translation_vector=o.translation_vector, focus=o.focus,
-              optical_center=o.optical_center, x_distortion_coefficients=_pad70(o.x_distortion_coefficients),
-              y_distortion_coefficients=_pad70(o.y_distortion_coefficients), view_port=o.view_port)
+              optical_center=o.optical_center, x_distortion_coefficients=_trim0(o.x_distortion_coefficients),
+              y_distortion_coefficients=_trim0(o.y_distortion_coefficients), nx=len(_trim0(o.x_distortion_coefficients)),
+              ny=len(_trim0(o.y_distortion_coefficients)), view_port=o.view_port)
 
 
 def _v_calibration(o):
